@@ -322,7 +322,7 @@ def local_defs(fi, name):
         elif isinstance(n, (ast.AugAssign, ast.AnnAssign)):
             if isinstance(n.target, ast.Name) and n.target.id == name:
                 out.append(n)
-        elif isinstance(n, (ast.For, ast.comprehension)):
+        elif isinstance(n, ast.For):  # comprehension targets live in their own scope
             for nm in ast.walk(n.target):
                 if isinstance(nm, ast.Name) and nm.id == name and isinstance(nm.ctx, ast.Store):
                     out.append(n)
